@@ -48,6 +48,17 @@ UNITS.append(Unit(
          "svt_enc_handle_stop_threads: every created thread joined exactly once (no leaked handle cell, no double "
          "free), every handle array released with the count it was created with (no out-of-bounds), handles cleared",
     assumptions=["block slice: the rest of svt_av1_enc_init is dropped; the per-stage counts are arbitrary in 1..2"]))
+CRE = ["svt_input_buffer_header_creator", "svt_input_buffer_header_destroyer", "allocate_frame_buffer",
+       "svt_output_buffer_header_creator", "svt_output_buffer_header_destroyer",
+       "svt_output_recon_buffer_header_creator", "svt_output_recon_buffer_header_destroyer"]
+UNITS.append(Unit(
+    uid="U15.4.pool_creators", prop="C15", harness="harness/c15_creators.c", entry="h_creators", mode="plain",
+    functions=CRE, keep_bodies=CRE + ["svt_picture_buffer_desc_ctor", "stub_pbd_dctor", "posix_memalign"], malloc_may_fail=True,
+    cbmc_flags=["--memory-leak-check"], unwind=4, canaries=2, min_obligations=60, cover_functions=[], timeout=600, mem_gb=16,
+    trusted=TR + ["svt_picture_buffer_desc_ctor replaced by its resource-accounting contract stub", "posix_memalign = failing malloc"],
+    what="the three creator / destroyer pairs of the encoder's buffer pools, every subset of the creator's allocations "
+         "failing: whatever was allocated is reachable from the pool element so that the wrapper's release frees it "
+         "(no leak, no double free); success yields an object the destroyer releases completely"))
 META = {"C15": {
     "level": "proof",
     "explanation": "Destructors of the resource-manager family / segments / thread arrays on complete and partially "
